@@ -60,6 +60,12 @@ def configs(tier, seed):
                     unc = [v for v in range(E) if v != commons[d]]
                     pres += [[d, v] for v in (unc if d == two else unc[:1])]
                 out.append(dict(D=3, E=E, cap=2, commons=list(commons), present=pres))
+    # skewed entry lengths derived from the integer constants of ccubes.py (cf. C02): an entry of exactly c rows against a
+    # single-row entry, either way round
+    from harness import C02
+    for c in C02.code_constants():
+        for long_dim in (0, 1):
+            out.append(dict(D=2, E=2, cap=1, commons=[0, 0], present=[[0, 1], [1, 1]], lens={str(long_dim): c}, derived_from_constant=c))
     return out
 
 
@@ -74,8 +80,9 @@ def explore(cfg, eng, ctx):
         dims, ents = [], []
         for d in range(D):
             pres = {(v,): ((d, v) in present) for v in range(E)}
+            lens = {(1,): cfg["lens"][str(d)]} if str(d) in cfg.get("lens", {}) else None
             ix, es = cubes.sym_dim(eng, C, "d%d" % d, N, range(E), commons[d], cap=cap, present=pres,
-                                   min_len=0 if cfg.get("allow_empty") else 1)
+                                   min_len=0 if cfg.get("allow_empty") else 1, lens=lens)
             dims.append(ix)
             ents.append(es)
         meta = [((), commons[d], ents[d]) for d in range(D)]
